@@ -92,6 +92,7 @@ namespace ratio
     std::unordered_map<const atom *, atom_adaptation> adaptations;          // for each atom, the numeric adaptations done during the executions (i.e., freezes and delays)..
     std::unordered_map<smt::var, atom *> all_atoms;                         // all the interesting atoms indexed by their sigma_xi variable..
     std::unordered_map<const atom *, smt::rational> dont_start, dont_end;   // the starting (ending) atoms which are not yet ready to start (end)..
+    std::unordered_set<const atom *> started, ended;                        // the atoms whose start (end) has already been notified..
     std::map<smt::inf_rational, std::unordered_set<atom *>> s_atms, e_atms; // for each pulse, the atoms starting/ending at that pulse..
     std::set<smt::inf_rational> pulses;                                     // all the pulses of the plan..
     std::vector<executor_listener *> listeners;                             // the executor listeners..
